@@ -920,7 +920,8 @@ func (state *RuntimeState) checkAuth(w http.ResponseWriter, r *http.Request, req
 					authData.Username = clientName
 				}
 			}
-			if authData.Username != "" {
+			if authData.Username != "" &&
+				(authData.AuthType&requiredAuthType) != 0 {
 				state.logger.Debugf(4, "returning tls cert authinfo")
 				return &authData, nil
 			}
